@@ -108,7 +108,23 @@ fn scratch_root() -> PathBuf {
     Path::new(&base).join("work").join("real18")
 }
 
+/// Runs the scenario; a run that exceeds its time limit is repeated with a
+/// longer one (twice): on a loaded machine a child may simply not get the CPU,
+/// whereas a shell that really hangs does so every time.  Only a run that
+/// times out three times in a row is recorded as `timeout`.
 pub fn run(sc: &Scenario, mode: &RMode) -> Obs {
+    let mut last = None;
+    for secs in [10u64, 40, 120] {
+        let obs = run_once(sc, mode, Duration::from_secs(secs));
+        if obs.outcome != "timeout" {
+            return obs;
+        }
+        last = Some(obs);
+    }
+    last.unwrap()
+}
+
+fn run_once(sc: &Scenario, mode: &RMode, limit: Duration) -> Obs {
     let n = COUNTER.fetch_add(1, Ordering::SeqCst);
     let root = scratch_root().join(format!("{}-{}", std::process::id(), n));
     let _ = std::fs::remove_dir_all(&root);
@@ -183,7 +199,7 @@ pub fn run(sc: &Scenario, mode: &RMode) -> Obs {
         match child.try_wait() {
             Ok(Some(st)) => break Some(st),
             Ok(None) => {
-                if t0.elapsed() > Duration::from_secs(10) {
+                if t0.elapsed() > limit {
                     timed_out = true;
                     unsafe { libc::kill(-(child.id() as i32), libc::SIGKILL) };
                     let _ = child.kill();
